@@ -445,9 +445,11 @@ def exact_ground_bad(spec, terms):
     return None
 
 
-def bind_ground_bad(owner, values):
+def bind_ground_bad(owner, values, later=()):
     """evaluate_estimation_circuits on REAL circuits: owner[i] = which circuit object task i carries (objects may be shared),
-    values[i] = the numbers map i binds (theta, phi). Task i must come back with ITS circuit bound with ITS map."""
+    values[i] = the numbers map i binds (theta, phi). Task i must come back with ITS circuit bound with ITS map.
+    `later`: further rounds of values; the SAME task and map objects are used again after the caller wrote the new numbers
+    into its map objects in place (an optimisation loop that keeps one parameter dictionary per task)."""
     import sympy
     from orquestra.quantum.api.estimation import EstimationTask
     from orquestra.quantum.circuits import Circuit, RX, RY, CNOT
@@ -459,15 +461,18 @@ def bind_ground_bad(owner, values):
     ops = [PauliTerm({0: "Z"}, float(i + 1)) for i in range(len(owner))]
     tasks = [EstimationTask(ops[i], circs[owner[i]], 7 + i) for i in range(len(owner))]
     maps = [{th: v[0], ph: v[1]} for v in values]
-    out = evaluate_estimation_circuits(tasks, maps)
-    if len(out) != len(tasks):
-        return f"{len(out)} tasks returned for {len(tasks)}"
-    for i, o in enumerate(out):
-        want = Circuit([RX(th)(0), RY(ph + owner[i])(1), CNOT(0, 1)]).bind({th: values[i][0], ph: values[i][1]})
-        if o.circuit != want or [op.params for op in o.circuit.operations] != [op.params for op in want.operations]:
-            return f"task {i} (circuit object #{owner[i]}, map {values[i]}) came back with parameters {[op.params for op in o.circuit.operations]}, want {[op.params for op in want.operations]}"
-        if o.operator is not ops[i] and o.operator != ops[i] or o.number_of_shots != 7 + i:
-            return f"task {i}: operator or shot number changed"
+    for rnd, values in enumerate([values] + [list(v) for v in later]):
+        for m, v in zip(maps, values):
+            m[th], m[ph] = v[0], v[1]  # in place: the map objects stay the same from round to round
+        out = evaluate_estimation_circuits(tasks, maps)
+        if len(out) != len(tasks):
+            return f"{len(out)} tasks returned for {len(tasks)}"
+        for i, o in enumerate(out):
+            want = Circuit([RX(th)(0), RY(ph + owner[i])(1), CNOT(0, 1)]).bind({th: values[i][0], ph: values[i][1]})
+            if o.circuit != want or [op.params for op in o.circuit.operations] != [op.params for op in want.operations]:
+                return f"round {rnd}: task {i} (circuit object #{owner[i]}, map {values[i]}) came back with parameters {[op.params for op in o.circuit.operations]}, want {[op.params for op in want.operations]}"
+            if o.operator is not ops[i] and o.operator != ops[i] or o.number_of_shots != 7 + i:
+                return f"round {rnd}: task {i}: operator or shot number changed"
     for i, t in enumerate(tasks):
         if t.circuit is not circs[owner[i]] or list(t.circuit.free_symbols) != [th, ph]:
             return f"input task {i} was modified"
@@ -499,7 +504,7 @@ def work(item):
         res.d["instances"] -= 1
         res.ob(1)
         if kind == "bindmaps":
-            bad = bind_ground_bad(p["owner"], p["values"])
+            bad = bind_ground_bad(p["owner"], p["values"], p.get("later", ()))
         elif kind == "shots":
             bad = shots_ground_bad(p["bits"], [tuple(t) for t in p["terms"]], p["nmax"])
         else:
@@ -596,6 +601,13 @@ def run(ctx):
         ([1, 0, 1], [[0.1, 0.2], [0.1, 0.2], [0.1, 0.2]]),
     ]:
         items.append(("bindmaps", {"owner": owner, "values": values, "label": f"bind tasks sharing circuit objects {owner} with maps {values}"}))
+    # the same task and map objects evaluated again after the caller wrote new numbers into its maps in place
+    for owner, values, later in [
+        ([0, 1], [[0.5, 0.25], [0.75, -0.5]], [[[1.5, 0.25], [0.75, 2.0]], [[0.5, 0.25], [-0.75, -0.5]]]),
+        ([0, 0, 0], [[0.1, 0.2], [0.3, 0.4], [0.5, 0.6]], [[[0.3, 0.4], [0.5, 0.6], [0.1, 0.2]]]),
+        ([0], [[3.141592653589793, 0.0]], [[[0.0, 3.141592653589793]], [[0, 0]]]),
+    ]:
+        items.append(("bindmaps", {"owner": owner, "values": values, "later": later, "label": f"bind tasks sharing circuit objects {owner} with maps {values}, then again with the same map objects updated in place to {later}"}))
     if only:
         items = [it for it in items if only in it[1]["label"] or only == it[0]]
     for it, out in pmap(work, items):
@@ -633,7 +645,7 @@ def replay(data):
         if "kinds" in inp:
             return const_replay({k: v for k, v in inp.items() if k not in ("clause", "values")}, inp["clause"], inp.get("values") or {})
         if inp["clause"] == "bindmaps":
-            bad = bind_ground_bad(inp["owner"], inp["values"])
+            bad = bind_ground_bad(inp["owner"], inp["values"], inp.get("later", ()))
         elif inp["clause"] == "shots":
             bad = shots_ground_bad(inp["bits"], [tuple(t) for t in inp["terms"]], inp["nmax"])
         elif inp["clause"] == "basis":
